@@ -154,3 +154,56 @@ Example full_list_runs :
   fst (obs_of (run_ctor ctor_NewMirror option_table false full_opts)) = 2 /\
   rejects option_table "WithLagStateChannel" VBad = true.
 Proof. vm_compute. auto. Qed.
+
+(** ** A running instance passed every validation; which documented-required options a validation covers *)
+
+Lemma running_passed_every_check : forall k table ci opts c,
+  run_ctor k table ci opts = CRunning c ->
+  forall v, In v (c_checks k ++ c_final_checks k) -> eval_cond c (v_cond v) = false.
+Proof.
+  intros k table ci opts c H v Hin. unfold run_ctor in H.
+  destruct (apply_opts (c_smc_nil k) (c_accumulates k) table opts cfg0 []) as [s|c0 errs]; [discriminate |].
+  destruct errs; [| discriminate].
+  destruct (apply_derived ci (c_derived k) c0) as [s|c1]; [discriminate |].
+  destruct (failing c1 (c_checks k)) eqn:F1; [| discriminate].
+  destruct (if ci then [] else failing c1 (c_late_checks k)); [| discriminate].
+  destruct (failing c1 (c_final_checks k)) eqn:F2; [| discriminate].
+  destruct (existsb (eval_cond c1) (c_sink_panics k)); [discriminate |].
+  inversion H; subst c1. apply in_app_or in Hin. destruct Hin as [Hin|Hin].
+  - exact (failing_nil c _ F1 v Hin).
+  - exact (failing_nil c _ F2 v Hin).
+Qed.
+
+(** option [o] is covered by constructor [k] when some validation names it and tests one of the fields it
+    writes for nil (or tests, for emptiness, a field derived from one it writes) *)
+Definition covered (k : ctor) (o : optinfo) : bool :=
+  existsb (fun v => String.eqb (v_option v) (o_name o) &&
+     match v_cond v with
+     | CNil f => existsb (fun w => String.eqb (w_field w) f) (o_writes o)
+     | CEmpty f => existsb (fun d => String.eqb (d_dst d) f &&
+                                     existsb (fun w => String.eqb (w_field w) (d_src d)) (o_writes o)) (c_derived k)
+     | _ => false
+     end) (c_checks k).
+
+Definition uncovered (k : ctor) (table : list optinfo) : list string :=
+  map o_name (filter (fun o => o_required_doc o && relevant k o && negb (covered k o)) table).
+
+(** the standalone mirror validates every documented-required option it consumes *)
+Lemma mirror_validates_every_required_option : uncovered ctor_NewMirror option_table = [].
+Proof. vm_compute. reflexivity. Qed.
+
+(** FINDING (known-findings.txt, key ctor-New-unreported-WithCommittedHeaderStore): the full engine does not.
+    Full statement [uncovered ctor_New option_table = []] is refuted; the exact exception set is: *)
+Lemma engine_validates_every_required_option_refuted : uncovered ctor_New option_table <> [].
+Proof. vm_compute. discriminate. Qed.
+Lemma engine_validates_every_required_option_partial :
+  uncovered ctor_New option_table = ["WithCommittedHeaderStore"].
+Proof. vm_compute. reflexivity. Qed.
+
+(** witness of the finding on the model: every option except WithCommittedHeaderStore => a running engine whose
+    committed header store is nil *)
+Lemma engine_runs_without_committed_header_store :
+  exists c, run_ctor ctor_New option_table false
+              (filter (fun p => negb (String.eqb (fst p) "WithCommittedHeaderStore")) full_opts) = CRunning c /\
+            c "e.mCfg.CommittedHeaderStore" = SNil.
+Proof. eexists. split; vm_compute; reflexivity. Qed.
